@@ -114,6 +114,7 @@ class World:
         self.yml_patterns = None      # root .codelimit.yml exclude list (None = no file)
         self.gi_patterns = None       # root .gitignore lines (None = no file)
         self.git = "none"
+        self.env = {}                 # GITHUB_REF / GITHUB_HEAD_REF seen by every simulated process
         self.spelling = "dot"
         self.home_cwd = os.getcwd()
         self.budget = budget
@@ -404,18 +405,20 @@ class World:
         raise KeyError(sp)
 
     def run_process(self, fn, nonce, cwd, fault=None, record_io=False, set_policy="mixed",
-                    walk_policy="shuffled", env=None):
-        """Run `fn()` as one simulated codelimit process."""
+                    walk_policy="shuffled", env=None, new_process=True):
+        """Run `fn()` as one simulated codelimit process (new_process=False: one
+        more call inside the same long-lived process, library mode)."""
         from codelimit.common.Configuration import Configuration
         import click
         # what a real process start would reset
+        if new_process:
+            seams.restore_module_state()
         Configuration.exclude = []
         Configuration.verbose = False
         Configuration.repository = None
         root_logger = logging.getLogger()
         for h in list(root_logger.handlers):
             root_logger.removeHandler(h)
-        seams.inject_simset() if seams._INSTALLED.get("simset") else None
         CTX.set_rng = stream(nonce, "set")
         CTX.set_policy = set_policy
         CTX.walk_rng = stream(nonce, "walk")
@@ -432,7 +435,8 @@ class World:
         CTX.analysed = []
         CTX.analysed_paths = []
         saved_env = {}
-        for k, v in (env or {}).items():
+        env = dict(self.env, **(env or {}))
+        for k, v in env.items():
             saved_env[k] = os.environ.get(k)
             if v is None:
                 os.environ.pop(k, None)
